@@ -5,9 +5,13 @@
    its corollary storage_independent_of_segmentation.
    The end-to-end theorem covers bit-vector signals of every width >= 1 written through the VCD text path
    (vcd_value_change) and through the raw path (raw_value_change with correctly packed data, GHW).
-   It does NOT cover (hence `_partial`): reals and strings; for those the tie is the correspondence check
-   (MANIFEST level_note). *)
-From WV Require Import Model.Base Model.Bits Model.Leb128 Model.WaveMem Proofs.BitsProofs Proofs.LebProofs Proofs.WaveMemProofs Proofs.StoreProofs Proofs.EncoderProofs.
+   Real-valued and string-valued signals have the same end-to-end theorem, storage_transparent_rs (VCD text
+   path and doubles handed over as 8 bytes, the GHW / FST path).
+   What the end-to-end theorems do NOT cover (hence the `_partial` name is kept): the division among parser
+   threads (appended_transparent) is proved for bit vectors only; for reals and strings that part is tied by the
+   correspondence check (MANIFEST level_note); and histories beyond the stated size bounds (2^32 time table
+   entries, 4 GiB of data per signal). *)
+From WV Require Import Model.Base Model.Bits Model.Leb128 Model.WaveMem Proofs.BitsProofs Proofs.LebProofs Proofs.WaveMemProofs Proofs.StoreProofs Proofs.EncoderProofs Proofs.RealStringProofs Proofs.RealStringEnc.
 From WV Require Import Spec.TimeSpec Spec.StoreSpec Proofs.TimeTableProofs.
 Open Scope N_scope.
 
@@ -101,6 +105,26 @@ Check storage_transparent_partial :
     load_signal lz_decompress blocks id (EncBits bits) = Ok sig /\
     observe_signal sig = outcome_map render_of (dedup R).
 
+(* the same for real-valued (str = false) and string-valued (str = true) signals: every recorded change that is
+   not a repetition of the value before it is reported with its time-table index and its value (the 8 bytes of
+   the double / the bytes of the string), in order, and nothing else.  parse_f64 stands for
+   str::parse::<f64>().to_le_bytes() (8 bytes). *)
+Check storage_transparent_rs :
+  forall (parse_f64 : list byte -> option (list byte)),
+  (forall r le, parse_f64 r = Some le -> length le = 8%nat) ->
+  forall (lz_compress : list byte -> list byte) (lz_decompress : list byte -> nat -> option (list byte)),
+  (forall d n, (length d <= n)%nat -> lz_decompress (lz_compress d) n = Some d) ->
+  forall cap, 1 <= cap -> cap <= 65536 -> forall id str tpes ops e blocks ttb,
+  nth_error tpes id = Some (rs_tpe str) ->
+  Forall (rs_op_ok id str) ops ->
+  ops_cost id ops < 4294967264 ->
+  run_ops parse_f64 lz_compress cap (enc_new tpes) ops = Ok e ->
+  enc_finish lz_compress e = Ok (blocks, ttb) -> N.of_nat (length ttb) < 4294967296 ->
+  exists R sig,
+    Forall2 (gdecodes parse_f64 str) R (recorded_rs id ops [] false) /\
+    load_signal lz_decompress blocks id (rs_tpe str) = Ok sig /\
+    observe_signal sig = Ok (map (fun a : N * list byte => (fst a, if str then KString else KReal, snd a)) (gdedup R)).
+
 (* two stores with different block capacities / compressors fed the same history report the same changes *)
 Check storage_independent_of_segmentation :
   forall parse1 parse2 lzc1 lzd1 lzc2 lzd2 cap1 cap2 id bits tpes ops e1 e2 b1 t1 b2 t2,
@@ -136,8 +160,31 @@ Check appended_transparent :
     = outcome_map render_of
         (dedup (cat_shift (combine Rs (map (fun ops => N.of_nat (length (accepted (times_of ops)))) opss)) 0)).
 
+Check load_reals_stream : forall es fuel t acc canon,
+  Forall rwf es -> acc_rep 8 acc canon -> (length es < fuel)%nat ->
+  exists acc', load_reals fuel (rstream es) t acc = Ok acc' /\ acc_rep 8 acc' (rspec es t canon) /\
+               la_strings acc' = la_strings acc.
+
+Check observe_reals : forall canon : list (N * list byte), entries_ok 8 canon ->
+  observe_signal (mk_signal (map fst canon) (SigReal (concat (map snd canon))))
+  = Ok (map (fun e : N * list byte => (fst e, KReal, snd e)) canon).
+
+Check load_strings_stream : forall es fuel t acc canon,
+  Forall swf es -> str_rep acc canon -> (length es < fuel)%nat ->
+  exists acc', load_strings fuel (sstream es) t acc = Ok acc' /\ str_rep acc' (rspec es t canon) /\
+               la_bytes acc' = la_bytes acc.
+
+Check observe_strings : forall canon : list (N * list byte),
+  observe_signal (mk_signal (map fst canon) (SigStrings (map snd canon)))
+  = Ok (map (fun e : N * list byte => (fst e, KString, snd e)) canon).
+
 Print Assumptions appended_transparent.
+Print Assumptions load_reals_stream.
+Print Assumptions observe_reals.
+Print Assumptions load_strings_stream.
+Print Assumptions observe_strings.
 Print Assumptions storage_transparent_partial.
+Print Assumptions storage_transparent_rs.
 Print Assumptions storage_independent_of_segmentation.
 Print Assumptions load_fixed_stream.
 Print Assumptions entry_render.
